@@ -165,6 +165,10 @@ type Check struct {
 	Name string
 	// Share is this part's share of the property's wall-clock budget (default 1).
 	Share int
+	// ExpectedProbes names reach probes the author cares about; the evidence lists those
+	// that never fired in a batch ("probes_never_hit") so that a workload or fault mix
+	// that no longer reaches a condition is visible.
+	ExpectedProbes []string
 	// Serial forces one worker (for worlds that use process-global state heavily and are cheap).
 	Serial bool
 }
